@@ -1,4 +1,5 @@
 import DW.Lemmas.Fields
+import DW.Lemmas.DefaultPos
 
 /-!
 # C11 — default() builds the marked variant or the struct from field defaults
@@ -44,7 +45,7 @@ theorem evalList_default (cx : SemCtx α) (env : Env α) (k : Nat) (n m : Nat) (
 theorem C11_body (it : Item) (cx : SemCtx α) (hwf : it.WF)
     (hnu : ∀ d ∈ it.variants, d.shape ≠ .union)
     (k : Nat) (d : Data) (hd : it.variants[k]? = some d) (hdef : d.isDefault = true)
-    (hone : ∀ j d', j ≠ k → d' ∈ it.variants → d'.isDefault = false) :
+    (hone : ∀ j d', j ≠ k → it.variants[j]? = some d' → d'.isDefault = false) :
     defaultMethodBody it = .seq (defaultBody k d) ∧
     (eval cx [] [] (defaultMethodBody it)).finish =
       .ok (specDefaultVal cx.ops k d, specDefaultLog k d) := by
@@ -71,5 +72,34 @@ theorem C11_body (it : Item) (cx : SemCtx α) (hwf : it.WF)
     have hmap := map_iterFields d .default (fun i => Expr.defaultCall k i)
     simp only [eval, hmap, hrel, List.range_eq_range', evalList_default, Out.bind_ok, applyFn, Out.finish,
       List.nil_append]
+
+/-- The hypotheses of `C11_body` are what validation establishes: for every accepted struct or enum that derives
+`Default` there is a position `k` holding the default data, and `fn default` is its constructor with every field
+defaulted. -/
+theorem C11_validated (c : Cfg) (raw : RawItem) (inp : Input) (h : Input.fromInput c raw = .ok inp)
+    (hnu : raw.kind ≠ .union_) (hshapes : ∀ v ∈ raw.variants, v.shape ≠ .union)
+    (hder : ∃ dw ∈ inp.deriveWheres, dw.contains .default = true) (cx : SemCtx α) :
+    ∃ (k : Nat) (d : Data), inp.item.variants[k]? = some d ∧ d.isDefault = true ∧
+      (∀ j d', j ≠ k → inp.item.variants[j]? = some d' → d'.isDefault = false) ∧
+      defaultMethodBody inp.item = .seq (defaultBody k d) ∧
+      (eval cx [] [] (defaultMethodBody inp.item)).finish =
+        .ok (specDefaultVal cx.ops k d, specDefaultLog k d) := by
+  have hok := Input.fromInput_ok c raw inp h
+  obtain ⟨k, d, hk, hdef, _, hone⟩ := default_position c raw inp h hnu hshapes hder
+  obtain ⟨h1, h2⟩ := C11_body inp.item cx hok.wf (hok.shapes hnu hshapes) k d hk hdef hone
+  exact ⟨k, d, hk, hdef, hone, h1, h2⟩
+
+/-- Non-vacuity: an enum whose *second* variant is the default one meets the hypotheses of `C11_body`. -/
+example :
+    let unitV : Data := ⟨.none, false, ⟨"A", false⟩, .unit, true, false, [], none⟩
+    let defV : Data := ⟨.none, false, ⟨"B", false⟩, .unit, true, true, [], none⟩
+    let it : Item := .enum_ .unit ⟨"E", false⟩ false [unitV, defV]
+    it.variants[1]? = some defV ∧ defV.isDefault = true ∧
+      ∀ j d', j ≠ 1 → it.variants[j]? = some d' → d'.isDefault = false := by
+  refine ⟨rfl, rfl, ?_⟩
+  intro j d' hj hd'
+  match j, hj, hd' with
+  | 0, _, hd' => simp [Item.variants] at hd'; subst hd'; rfl
+  | j + 2, _, hd' => simp [Item.variants] at hd'
 
 end DW
